@@ -152,6 +152,19 @@ func init() {
 					f := []string{"native", "plain"}[b%2]
 					cs = append(cs, fw.Case{ID: fmt.Sprintf("%s/seq/%d", f, b), Kind: "seqbatch", P: map[string]any{"face": f, "b": b}})
 				}
+				// operands that are compile-time CONSTANTS (round constants, coset shifts, 2^k
+				// scalings are constants in the verifier): structured constants x extreme operands
+				nco := 60
+				if !ctx.Quick {
+					nco = 600
+				}
+				for i := 0; i < nco; i++ {
+					f := []string{"native", "plain"}[i%2]
+					cs = append(cs, fw.Case{ID: fmt.Sprintf("%s/constops/%d", f, i), Kind: "constops", P: map[string]any{"face": f, "i": i}})
+				}
+				for _, sys := range []string{"r1cs", "scs"} {
+					cs = append(cs, fw.Case{ID: "constops/" + sys, Kind: "constopscompiled", P: map[string]any{"sys": sys}})
+				}
 				ns := 12
 				if !ctx.Quick {
 					ns = 200
@@ -185,6 +198,69 @@ func init() {
 					return fw.Outcome{}, false
 				}
 				switch c.Kind {
+				case "constops", "constopscompiled":
+					consts := []uint64{0, 1, 2, 3, 1<<16 - 1, 1 << 16, 1<<16 + 1, 1<<32 - 1, 1 << 32, 1<<32 + 1, 1 << 48, 1<<48 + 1, 1 << 63, P - (1 << 32), P - 2, P - 1}
+					extremes := []uint64{0, 1, P - 1, P - 2, 1 << 32, P - (1 << 32)}
+					mkFn := func(k uint64) gadget.Fn {
+						return func(api frontend.API, in []frontend.Variable) []frontend.Variable {
+							g := gl.New(api)
+							a, cc := gl.NewVariable(in[0]), gl.NewVariable(in[1])
+							kc := gl.NewVariable(k) // a Go constant
+							return []frontend.Variable{g.MulAdd(a, kc, cc).Limb, g.MulAdd(kc, a, cc).Limb, g.MulAdd(a, cc, kc).Limb,
+								g.Mul(a, kc).Limb, g.Add(a, kc).Limb, g.Sub(a, kc).Limb, g.Sub(kc, a).Limb, g.Reduce(g.MulAddNoReduce(a, kc, cc)).Limb}
+						}
+					}
+					want := func(k, a, cc uint64) []uint64 {
+						return []uint64{ref.Add(ref.Mul(a, k), cc), ref.Add(ref.Mul(k, a), cc), ref.Add(ref.Mul(a, cc), k), ref.Mul(a, k), ref.Add(a, k), ref.Sub(a, k), ref.Sub(k, a), ref.Add(ref.Mul(a, k), cc)}
+					}
+					if c.Kind == "constopscompiled" {
+						r := ctx.Rand(c.ID)
+						for _, k := range []uint64{1 << 16, 1 << 32, 1 << 48, P - 1, 1<<32 + 1} {
+							var ios []compiledIO
+							for _, ac := range [][2]uint64{{P - 1, P - 1}, {P - 1, k}, {P - 2, 2 * k % P}, {randGL(r), randGL(r)}, {0, 0}} {
+								w := want(k, ac[0], ac[1])
+								outs := make([]*big.Int, len(w))
+								for i := range w {
+									outs[i] = bu(w[i])
+								}
+								ios = append(ios, compiledIO{In: []*big.Int{bu(ac[0]), bu(ac[1])}, Out: outs})
+							}
+							if v, bad := compiledAgree(&o, c.Str("sys"), "constant_operands", mkFn(k), 2, 8, ios); bad {
+								return v
+							}
+						}
+						return o
+					}
+					i := c.Int("i")
+					r := ctx.Rand(c.ID)
+					k := consts[i%len(consts)]
+					if i%5 == 4 {
+						k = randGL(r)
+					}
+					for t := 0; t < 12; t++ {
+						a, cc := extremes[(i/len(consts)+t)%len(extremes)], extremes[(t*5+i)%len(extremes)]
+						switch t % 4 {
+						case 1:
+							cc = k % P // c >= b with a = p-1: the quotient equals the constant
+						case 2:
+							cc = (2 * (k % P)) % P
+						case 3:
+							a, cc = randGL(r), randGL(r)
+						}
+						got, res := gadget.EngineEval(engine.Options{Face: faceByName(c.Str("face"))}, mkFn(k), []*big.Int{bu(a), bu(cc)})
+						o.Events += events(res)
+						if res.Verdict != engine.Accept {
+							return fw.Violate("gadget_failed:constant_operand", fmt.Sprintf("constant %d, a=%d, c=%d: %s %s", k, a, cc, resStr(res), res.Msg))
+						}
+						w := want(k%P, a, cc)
+						for j := range w {
+							if !got[j].IsUint64() || got[j].Uint64() != w[j] {
+								return fw.Violate("wrong_result:constant_operand", fmt.Sprintf("operation %d with constant %d, a=%d, c=%d: got %s want %d", j, k, a, cc, got[j], w[j]))
+							}
+						}
+						o.Inc("constant_operand_tuples")
+					}
+					o.Sample = map[string]any{"constant": k}
 				case "edge":
 					i := c.Int("i")
 					a, b, cc := edgeGL[i%7], edgeGL[(i/7)%7], edgeGL[(i/49)%7]
